@@ -294,3 +294,68 @@ func genLargeHash(g *gen, th bool) {
 		}
 	}
 }
+
+// genTxtPieces: to_F, then the encoded bytes cut into an array binary at positions that fall INSIDE multi-byte
+// characters / surrogate pairs / between BOM bytes, then from_F (op `prt`); and long strings whose encodings
+// cross 4096- and 32768-byte boundaries with a multi-byte character on the boundary.
+func genTxtPieces(g *gen, th bool) {
+	r := g.r
+	for _, c := range txtCodecs {
+		maxClass := 5
+		if c == "latin1" {
+			maxClass = 2
+		}
+		okLatin := func(s string) bool {
+			for _, x := range s {
+				if x > 0xff {
+					return false
+				}
+			}
+			return true
+		}
+		reps := 60
+		if th {
+			reps = 400
+		}
+		for k := 0; k < reps; k++ {
+			s := randString(r, r.Range(1, 12), maxClass)
+			if c == "latin1" && !okLatin(s) {
+				continue
+			}
+			// every single cut of the (at most ~50 byte) encoding, and a few double cuts
+			for cut := 1; cut <= 4*len([]rune(s))+2; cut++ {
+				g.add(true, "%s prt %s %d", c, hx([]byte(s)), cut)
+			}
+			for j := 0; j < 4; j++ {
+				a := r.Range(1, 20)
+				g.add(true, "%s prt %s %d,%d", c, hx([]byte(s)), a, a+r.Range(0, 5))
+			}
+		}
+		// long strings: a wide character straddling each boundary candidate
+		bounds := []int{4096, 8192, 32768}
+		if th {
+			bounds = append(bounds, 12288, 16384, 65536, 98304)
+		}
+		wide := []string{"\u00e5", "\u20ac", "\U0001f600"}
+		if c == "latin1" {
+			wide = []string{"\u00e5", "\u00ff"}
+		}
+		for _, b := range bounds {
+			for _, w := range wide {
+				for _, d := range []int{1, 2, 3} {
+					if b-d < 0 {
+						continue
+					}
+					// ASCII filler so that the wide character starts d bytes before the boundary (in UTF-8 bytes; for
+					// UTF-16 the same strings put code units on both sides of b/2 and b)
+					for _, unit := range []int{1, 2} {
+						n := (b - d) / unit
+						s := strings.Repeat("a", n) + w + strings.Repeat("b", 40) + w
+						g.add(true, "%s prt %s -", c, hx([]byte(s)))
+						g.add(true, "%s prt %s %d,%d", c, hx([]byte(s)), n*unit+1, n*unit+2)
+					}
+				}
+			}
+		}
+	}
+}
